@@ -69,6 +69,13 @@ func kernels() []kernel {
 		{name: "backendCfgPassthroughOf", file: "failover_go1.18.go", fn: "NewFailoverOf", kind: "fact", unit: "backendcfg-passthrough"},
 		{name: "backendCfgIdentity", file: "failover.go", fn: "NewFailover", kind: "fact", unit: "backendcfg-identity"},
 		{name: "backendCfgIdentityOf", file: "failover_go1.18.go", fn: "NewFailoverOf", kind: "fact", unit: "backendcfg-identity"},
+		// the detached context of a background build (C06): constant answers, values forwarded, no promoted methods
+		{name: "detachedNoDeadline", file: "context.go", recv: "detachedContext", fn: "Deadline", kind: "fact", unit: "returns", must: []string{"time.Time{}", "false"}},
+		{name: "detachedNeverDone", file: "context.go", recv: "detachedContext", fn: "Done", kind: "fact", unit: "returns", must: []string{"nil"}},
+		{name: "detachedNoErr", file: "context.go", recv: "detachedContext", fn: "Err", kind: "fact", unit: "returns", must: []string{"nil"}},
+		{name: "detachedForwardsValues", file: "context.go", recv: "detachedContext", fn: "Value", kind: "fact", unit: "returns", must: []string{`re:\w+\.\w+\.Value\(\w+\)`}},
+		{name: "ctxSyncDetaches", file: "failover.go", recv: "Failover", fn: "ctxSync", kind: "fact", unit: "ctxsync-returns"},
+		{name: "ctxSyncDetachesOf", file: "failover_go1.18.go", recv: "FailoverOf", fn: "ctxSync", kind: "fact", unit: "ctxsync-returns"},
 		// constants
 		{name: "shards", file: "sharded_map.go", kind: "constdecl", lhs: "shards", sig: ": Int", unit: "int"},
 		{name: "defaultSkipInterval", file: "invalidator.go", recv: "Invalidator", fn: "Invalidate", kind: "defaultval", lhs: "i.SkipInterval", sig: ": Int", unit: "dur"},
